@@ -10,13 +10,15 @@ use std::collections::BTreeMap;
 pub fn def() -> PropDef {
     PropDef { id: "C16", level: "exploration", run, case, render: render_case }
 }
-const RAW_PER_MICRON: i128 = 10_000; // the importer's unit is the angstrom
-
-/// Decimal-scaling model: value * 10000 on (mantissa, scale) integers. None = not a whole number.
+thread_local! {
+    /// raw units per micron of the library under comparison (the importer documents angstroms: 10000)
+    static RAW_PER_MICRON: std::cell::Cell<i128> = const { std::cell::Cell::new(10_000) };
+}
+/// Decimal-scaling model: value * (raw units per micron) on (mantissa, scale) integers. None = not a whole number.
 fn scale_exact(d: &LefDecimal) -> Option<i64> {
     let m = d.mantissa();
     let s = d.scale();
-    let num = m * RAW_PER_MICRON;
+    let num = m * RAW_PER_MICRON.with(|r| r.get());
     let den = 10i128.pow(s);
     if num % den != 0 {
         return None;
@@ -241,7 +243,7 @@ fn oracle(lib: &LefLibrary, f: &Flags, ctx: &mut Ctx) -> Result<(), String> {
         }
         Ok(l) => l,
     };
-    if f.fine {
+    if f.fine && matches!(rl.units, raw::Units::Angstrom) {
         return Err("a coordinate that is not a whole number of raw units (a non-zero digit beyond the fourth decimal of a micron) was imported instead of reported as an error".into());
     }
     if f.unsupported {
@@ -266,8 +268,16 @@ fn oracle(lib: &LefLibrary, f: &Flags, ctx: &mut Ctx) -> Result<(), String> {
         crate::engine::clip(&mut s, 1200);
         s
     });
-    if rl.units != raw::Units::Angstrom {
-        return Err(format!("imported units {:?}; the importer's documented unit is the angstrom (10000 per micron)", rl.units));
+    // the number of raw units per micron follows from the units of the returned library
+    let per_micron: i128 = match rl.units {
+        raw::Units::Micro => 1,
+        raw::Units::Nano => 1_000,
+        raw::Units::Angstrom => 10_000,
+        raw::Units::Pico => 1_000_000,
+    };
+    RAW_PER_MICRON.with(|r| r.set(per_micron));
+    if per_micron != 10_000 {
+        ctx.label("importer returned units other than angstrom");
     }
     let layers = rl.layers.read().map_err(|_| "lock")?;
     if rl.cells.len() != lib.macros.len() {
@@ -342,7 +352,7 @@ fn run(run: &mut Run) {
     run.assume("the importer's raw unit is the angstrom (10000 per micron), as its documentation says; layer numbers, vias, masks are not compared");
     run.min_nontrivial = 200;
     run.literals("literals", &[vec![0, 0], vec![0, 1]], &literal_case);
-    run.explore("import", run.tier.pick(30_000, 600_000), 1500, &main_case);
+    run.explore("import", run.tier.pick(200_000, 1_500_000), 1500, &main_case);
 }
 fn case(sub: &str) -> Option<Box<CaseFn<'static>>> {
     match sub {
